@@ -27,13 +27,22 @@ DOC_TEXTS = [
     ("long", " " + "x" * 3000), ("at", " @param x {string}"), ("html", " <script>alert(1)</script>"), ("empty-line", ""),
     ("star", " * bullet"), ("import", ' import type { A } from "./a";'), ("brace", ' json {"a": 1} and {} and {{x}}'),
     ("percent", " 100% {0} %s"), ("leading-slash", "/ export type Evil = any;"), ("leading-slash", "/"),
+    ("carriage-return", " ends *\r/ export type Evil = any; /* "), ("carriage-return", " first\r\n\r\n second"),
     ("open-paren", " see ( here"), ("close-paren", " a ) b"), ("splice-pattern", " a } & { b"), ("odd-quote", ' one " quote'),
 ]
+
+
+def effective_form(cls_text, form):
+    """a carriage return can only be written in a `#[doc = ".."]` attribute (rustc rejects a bare CR in doc comments)"""
+    if cls_text is not None and "\r" in cls_text[1] and form not in ("attr", "attr-multiline", "attr-multiline+attr"):
+        return "attr"
+    return form
 
 
 def doc_attr_lines(r, cls_text, form):
     """Rust source lines that attach the documentation text in the given form."""
     cls, text = cls_text
+    form = effective_form(cls_text, form)
     if (form.startswith("block") or form in ("line", "two-lines")) and text.startswith("/"):
         text = " " + text       # `/**/` would be an empty Rust comment, `////` a plain comment
     if form == "line":
@@ -189,7 +198,7 @@ class TextGen:
                                                    Field("flat", Ty("user", item=inner), flatten=True,
                                                          docs=fdocs if position == "flattened-field" else [])])
                 self.add(it, position=position, cls=(t[0] if t else "none"), text=(t[1] if t else None), group=f"{self.prefix}g{gi}",
-                         variant=vi, form=form, shape=shape,
+                         variant=vi, form=effective_form(t, form), shape=shape,
                          ctx=((fctx or "").split("(")[-1].split(" ")[0].rstrip(")]") or None) if shape != "named" or not cctx else
                          "+".join(x.split("(")[-1].split(" ")[0].rstrip(")]") for x in (fctx, cctx) if x),
                          documents=("alpha" if position in ("field", "variant-field") else ("@container" if position == "container" else None)))
@@ -202,7 +211,7 @@ class TextGen:
             first = None
             for j in range(2):
                 t = r.choice(DOC_TEXTS)
-                form = r.choice(["line", "two-lines", "attr", "block", "block-blank"]) if k % 3 else "block-blank"
+                form = effective_form(t, r.choice(["line", "two-lines", "attr", "block", "block-blank"]) if k % 3 else "block-blank")
                 fdoc = r.choice(DOC_TEXTS)
                 if j == 1 and k % 4 == 1:
                     # the documentation of a field quotes the declaration of the other type in the same file
